@@ -231,6 +231,11 @@ Inductive instr :=
   | ISetConst (tgt : var) (integral : bool)  (* tgt[idx] = Python number *)
   | ISetFrom (tgt : var) (src : operand)     (* tgt[idx] = array   (unsafe cast) *)
   | IFloatFun (dst src : var)            (* np.sqrt & co: float-valued unary ufunc *)
+  | IReduce (src : var)                  (* np.sum / np.mean / nansum / ... (also the methods): the
+                                            accumulator has the dtype of a float input (integers are
+                                            widened to int64 / float64): a float16/float32 input is
+                                            accumulated in float16/float32.  The scalar result is not
+                                            tracked further *)
   | IKernel (dst src : var).             (* library routine returning real-valued results in
                                             the dtype of its input (ndimage.convolve,
                                             map_coordinates without output=) *)
@@ -409,6 +414,11 @@ Section Machine.
         | Some (_, c) => ROk (alloc dst {| cdt := floatify (cdt c); cval := ffun (cval c) |} s)
         | None => RStuck
         end
+    | IReduce src =>
+        match get s src with
+        | Some (_, c) => ROk (bump (is_float (cdt c) && negb (dt_eqb (cdt c) DF64)) s)
+        | None => RStuck
+        end
     | IKernel dst src =>
         match get s src with
         | Some (_, c) =>
@@ -475,6 +485,25 @@ Fixpoint tuples (n : nat) (allowed : list dt) : list (list dt) :=
 Definition analyze (p : prog) (ninputs : nat) (allowed : list dt) : bool :=
   forallb (accepts p) (tuples ninputs allowed).
 
+(* inputs with individual sets of possible dtypes (an input produced by another analysed function
+   has the dtype that function returns; masks are bool; geometric weights are float64) *)
+Fixpoint product (sets : list (list dt)) : list (list dt) :=
+  match sets with
+  | [] => [[]]
+  | s :: r => flat_map (fun t => map (cons t) (product r)) s
+  end.
+Definition analyze_typed (p : prog) (sets : list (list dt)) : bool :=
+  forallb (accepts p) (product sets).
+
+(* the dtype variable v ends with, according to the analysis *)
+Definition result_dtype (p : prog) (tags : list dt) (v : var) : option dt :=
+  match arun p tags with
+  | ROk s => match get unit s v with Some (_, c) => Some (cdt c) | None => None end
+  | _ => None
+  end.
+Definition returns_dtype (p : prog) (sets : list (list dt)) (v : var) (d : dt) : bool :=
+  forallb (fun tags => accepts p tags && opt_eqb dt_eqb (result_dtype p tags v) (Some d)) (product sets).
+
 (* the dtypes the property lists for an input array (float64 reference, float32,
    int16/int64; uint16 and int32 (FITS BITPIX 32, big-endian) ride along) *)
 Definition allowed_inputs : list dt := [DF64; DF32; DI16; DI64; DU16; DI32].
@@ -538,7 +567,12 @@ Inductive case :=
   | CIndep (p : prog) (tags : list dt) (same : bool)
       (* same = the numpy run from dtypes `tags` ended with the same values as the all-float64
          run; must be true whenever the analysis accepts both *)
-  | CObligation (p : prog) (ninputs : nat).                      (* per-run obligation *)
+  | CReduce (d : dt) (narrow : bool)
+      (* narrow = np.sum / np.mean of an array of dtype d returned a float16/float32 scalar *)
+  | CObligation (p : prog) (ninputs : nat)                       (* per-run obligation *)
+  | CObligationT (p : prog) (sets : list (list dt))              (* ... with per-input dtype sets *)
+  | CReturns (p : prog) (sets : list (list dt)) (v : var) (d : dt).
+      (* per-run obligation: accepted, and variable v (the returned array) always has dtype d *)
 
 Definition dtype_str_eqb (a b : dtype_str) : bool :=
   match bo a, bo b with
@@ -557,7 +591,10 @@ Definition check_case (c : case) : bool :=
   | CRun p tags nv e => outcome_eqb (outcome_of nv (arun p tags)) e
   | CIndep p tags same =>
       implb (accepts p tags && accepts p (map (fun _ => DF64) tags)) same
+  | CReduce d narrow => Bool.eqb (negb (accepts [IReduce 0] [d])) narrow
   | CObligation p n => analyze p n allowed_inputs
+  | CObligationT p sets => analyze_typed p sets
+  | CReturns p sets v d => returns_dtype p sets v d
   end.
 
 Inductive model_answer :=
@@ -574,5 +611,10 @@ Definition model_out (c : case) : model_answer :=
   | CPQ v n _ => MPQ (process_quantities v n)
   | CRun p tags nv _ => MRun (outcome_of nv (arun p tags))
   | CIndep p tags _ => MBool (accepts p tags && accepts p (map (fun _ => DF64) tags))
+  | CReduce d _ => MBool (negb (accepts [IReduce 0] [d]))
   | CObligation p n => MRejected (filter (fun t => negb (accepts p t)) (tuples n allowed_inputs))
+  | CObligationT p sets => MRejected (filter (fun t => negb (accepts p t)) (product sets))
+  | CReturns p sets v d =>
+      MRejected (filter (fun t => negb (accepts p t && opt_eqb dt_eqb (result_dtype p t v) (Some d)))
+                        (product sets))
   end.
